@@ -23,19 +23,30 @@ def _atoms(body):
     out = {"faucet": [], "mainnet": [], "bug": [], "present": []}
     for bi, e in q.all_call_exprs(body):
         s = sig(e)
-        cm = q.as_cmp(e)
-        if cm:
-            c = q.canon_cmp(*cm)
-            if c in ("Eq($2.kind, TxKind::Faucet{})", "Eq(TxKind::Faucet{}, $2.kind)"):
-                out["faucet"].append((bi, e))
-            elif c in ("Eq($1.network, NetID::Mainnet{})", "Eq(NetID::Mainnet{}, $1.network)"):
-                out["mainnet"].append((bi, e))
-            elif "INFLATION_BUG_TX_HASH" in c:
-                out["bug"].append((bi, e))
-            elif "network" in c:
+        forms = q.atom_forms(e)
+        if forms:
+            hit = False
+            for x, c in forms:          # the test as spelled, and its negation (`net != Mainnet` is the atom `net == Mainnet`, negated)
+                if c in ("Eq($2.kind, TxKind::Faucet{})", "Eq(TxKind::Faucet{}, $2.kind)"):
+                    out["faucet"].append((bi, x))
+                elif c in ("Eq($1.network, NetID::Mainnet{})", "Eq(NetID::Mainnet{}, $1.network)"):
+                    out["mainnet"].append((bi, x))
+                elif "INFLATION_BUG_TX_HASH" in c and c.startswith("Eq("):
+                    out["bug"].append((bi, x))
+                else:
+                    continue
+                hit = True
+                break
+            if not hit and "network" in forms[0][1]:
                 out.setdefault("othernet", []).append((bi, e))
         if s == "Option::is_some(CoinMapping::get_coin($1.coins, %s))" % KEY:
             out["present"].append((bi, e))
+    # `if let Some(_) = get_coin(marker)` / `match get_coin(marker)`: a switch on the lookup's discriminant (1 = present)
+    if not out["present"]:
+        for bi, t in body.iter_terms("switch"):
+            d = body.rec_operand(t["discr"], bi, "T")
+            if d[0] == "discr" and sig(d[1]) == "CoinMapping::get_coin($1.coins, %s)" % KEY:
+                out["present"].append((bi, d))
     return out
 
 
